@@ -32,14 +32,21 @@ func newCommandPipeline(applier func(*pb.RaftCmdRequest) (*pb.RaftCmdResponse, e
 	}
 }
 
-func (cp *commandPipeline) nextProposalID() uint64 {
+// nextProposalID returns a request id that no other store, and no earlier
+// incarnation of this store, hands out: the high 32 bits carry the raft term in
+// which the caller observed this store as leader (a term has at most one
+// leader, and a restarted store has to win a new term before it proposes
+// again), the low 32 bits the local counter. Applied entries are matched to
+// local waiters by this id alone, so it must not collide with the id of an
+// entry proposed elsewhere.
+func (cp *commandPipeline) nextProposalID(term uint64) uint64 {
 	if cp == nil {
 		return 0
 	}
 	cp.mu.Lock()
 	defer cp.mu.Unlock()
 	cp.seq++
-	return cp.seq
+	return term<<32 | cp.seq&0xffffffff
 }
 
 func (cp *commandPipeline) registerProposal(id uint64) (*commandProposal, error) {
